@@ -1016,7 +1016,7 @@ pub fn run(args: &Args) -> i32 {
     report.assume("a store that applies complete/put and then reports failure (lost reply) is not generated: no writer could leave the destination clean then");
     report.assume("part size growth after 100 parts (500 MiB) is exercised only in the thorough tier");
     std::panic::set_hook(Box::new(|_| {}));
-    let threads = 12usize;
+    let threads = crate::sink::verif_threads().min(12);
     let max_scenarios: u64 = args.tier.pick(2_000, 200_000);
     let all_complete = std::sync::atomic::AtomicBool::new(true);
     let next = std::sync::atomic::AtomicU64::new(0);
